@@ -111,6 +111,18 @@ Section MeanFree.
     rewrite H, fz_opp. ring.
   Qed.
 
+  (* a summand that is odd under m -> -m sums to zero over the (symmetric) band *)
+  Lemma odd_sum_zero (g : idx -> F) : (forall m, In m (bandD D Kc) -> g (negi m) = - g m) -> fsum (map g (bandD D Kc)) = 0.
+  Proof.
+    intros Hodd. set (S := fsum (map g (bandD D Kc))).
+    assert (H : S = - S).
+    { transitivity (fsum (map (fun m => - (1) * g m) (bandD D Kc))).
+      - unfold S. rewrite band_reindex. apply fsum_map_ext. intros m Hm. rewrite (Hodd m Hm). ring.
+      - rewrite fsum_map_scal. fold S. ring. }
+    assert (H2 : fz 2 * S = 0) by (cbn [fz fpos]; transitivity (S + S); [ring | rewrite H at 1; ring]).
+    apply (fmul_eq0 F) in H2. destruct H2 as [H2|H2]; [|exact H2]. exfalso. revert H2. apply fz_neq0. discriminate.
+  Qed.
+
   (* S_c = sum_m u(m) d_c(-m) u(-m) over the band vanishes *)
   Lemma antisym_sum (u : field F) c :
     fsum (map (fun m => msk F Kc u m * msk F Kc (fmulp F (dc F ii s c) u) (negi m)) (bandD D Kc)) = 0.
@@ -139,4 +151,95 @@ Section MeanFree.
         rewrite (subi_zeros m Hl), wrapD_band by (rewrite in_band_negi; exact Hbm). reflexivity. }
     rewrite (fsum_map_ext F _ _ (fun _ => 0)) by (intros c _; apply Hz). rewrite fsum_map_zero. ring.
   Qed.
+
+  (* zero-mode coefficient of a pseudo-spectral product: N^-D sum_m U(m) V(-m) over the band *)
+  Lemma prod2_zero_mode (U V : field F) :
+    prod2 F D N Kc U V zeros = nfac F D N * fsum (map (fun m => msk F Kc U m * msk F Kc V (negi m)) (bandD D Kc)).
+  Proof.
+    unfold prod2, msk at 1.
+    assert (Hb : in_band Kc zeros = true) by (unfold zeros, in_band; induction D; cbn; [reflexivity | rewrite IHn; lia]).
+    rewrite Hb. unfold cconv2. f_equal. apply fsum_map_ext. intros m Hm.
+    apply (in_bandD D Kc m K_nonneg) in Hm. destruct Hm as [Hl Hbm].
+    rewrite (subi_zeros m Hl), wrapD_band by (rewrite in_band_negi; exact Hbm). reflexivity.
+  Qed.
+
+  (* 2D vorticity convection -b (u d_0 w + v d_1 w), (u, v) = (d_1 psi, -d_0 psi): the two products cancel term by term at the mean mode,
+     for every vorticity state and every stream-function multiplier (in particular where(lap == 0, 1, 1/lap)) *)
+  Theorem vorticity_conv_dc (b : F) (w : field F) : vorticity_conv F (prod2 F D N Kc) ii s D b w zeros = 0.
+  Proof.
+    unfold vorticity_conv, fscal, fadd. cbv zeta. rewrite !prod2_zero_mode.
+    set (psi := fmulp F (inv_lap_one F ii s D) w).
+    set (f1 := fun m => msk F Kc (fmulp F (dc F ii s 1) psi) m * msk F Kc (fmulp F (dc F ii s 0) w) (negi m)).
+    set (f2 := fun m => msk F Kc (fun k => - (1) * fmulp F (dc F ii s 0) psi k) m * msk F Kc (fmulp F (dc F ii s 1) w) (negi m)).
+    assert (H : fsum (map f1 (bandD D Kc)) + fsum (map f2 (bandD D Kc)) = 0).
+    { rewrite <- fsum_map_add. rewrite (fsum_map_ext F _ _ (fun _ => 0)); [apply fsum_map_zero|].
+      intros m _. unfold f1, f2, msk, fmulp. rewrite in_band_negi. destruct (in_band Kc m); [rewrite !dc_negi; ring | ring]. }
+    transitivity (- b * (nfac F D N * (fsum (map f1 (bandD D Kc)) + fsum (map f2 (bandD D Kc))))); [ring | rewrite H; ring].
+  Qed.
+
+  (* rotational form u x (curl u), one component, with abstract odd derivative symbols da, db, dc along a cyclic triple of axes:
+     on divergence-free band-limited input the summand is -da(m) (u(m).u(-m)), odd under m -> -m *)
+  Lemma rot_component_dc (da db dcc ua ub uc : field F) :
+    (forall m, da (negi m) = - da m) -> (forall m, db (negi m) = - db m) -> (forall m, dcc (negi m) = - dcc m) ->
+    (forall m, in_band Kc m = true -> da m * ua m + db m * ub m + dcc m * uc m = 0) ->
+    fadd F (prod2 F D N Kc ub (fadd F (fmulp F da ub) (fscal F (- (1)) (fmulp F db ua))))
+           (fscal F (- (1)) (prod2 F D N Kc uc (fadd F (fmulp F dcc ua) (fscal F (- (1)) (fmulp F da uc))))) zeros = 0.
+  Proof.
+    intros Oa Ob Oc Hdiv.
+    change (prod2 F D N Kc ub (fadd F (fmulp F da ub) (fscal F (- (1)) (fmulp F db ua))) zeros
+            + - (1) * prod2 F D N Kc uc (fadd F (fmulp F dcc ua) (fscal F (- (1)) (fmulp F da uc))) zeros = 0).
+    rewrite !prod2_zero_mode.
+    set (E := fun m => ua m * ua (negi m) + ub m * ub (negi m) + uc m * uc (negi m)).
+    set (g := fun m => if in_band Kc m then - da m * E m else 0).
+    set (f1 := fun m => msk F Kc ub m * msk F Kc (fadd F (fmulp F da ub) (fscal F (- (1)) (fmulp F db ua))) (negi m)).
+    set (f2 := fun m => msk F Kc uc m * msk F Kc (fadd F (fmulp F dcc ua) (fscal F (- (1)) (fmulp F da uc))) (negi m)).
+    assert (H : fsum (map f1 (bandD D Kc)) + - (1) * fsum (map f2 (bandD D Kc)) = 0).
+    { rewrite <- fsum_map_scal, <- fsum_map_add. rewrite (fsum_map_ext F _ _ g).
+      - apply odd_sum_zero. intros m _. unfold g. rewrite in_band_negi. destruct (in_band Kc m); [|ring].
+        unfold E. rewrite negi_invol, Oa. ring.
+      - intros m Hm. apply (in_bandD D Kc m K_nonneg) in Hm. destruct Hm as [_ Hb].
+        unfold f1, f2, g, msk, fadd, fscal, fmulp. rewrite in_band_negi, Hb, Oa, Ob, Oc. unfold E.
+        pose proof (Hdiv m Hb) as Hd.
+        transitivity (- da m * (ua m * ua (negi m) + ub m * ub (negi m) + uc m * uc (negi m))
+                      + ua (negi m) * (da m * ua m + db m * ub m + dcc m * uc m)); [ring | rewrite Hd; ring]. }
+    transitivity (nfac F D N * (fsum (map f1 (bandD D Kc)) + - (1) * fsum (map f2 (bandD D Kc)))); [ring | rewrite H; ring].
+  Qed.
 End MeanFree.
+
+(* 1D default (multi-channel, non-conservative) Burgers / KdV convection -b u d_x u: zero mean for every state *)
+Theorem conv_mc_noncons_1d_dc (F : FieldT) (N Kc : Z) (ii s b : F) (u : field F) :
+  (0 < N)%Z -> (0 <= Kc)%Z -> (2 * Kc < N)%Z ->
+  nth 0 (conv_mc_noncons F (prod2 F 1 N Kc) ii s 1 b [u]) (fzero F) (zeros 1) = o0.
+Proof.
+  intros HN HK H2. change (nth 0 (conv_mc_noncons F (prod2 F 1 N Kc) ii s 1 b [u]) (fzero F) (zeros 1))
+    with (conv_sc_noncons F (prod2 F 1 N Kc) ii s 1 b u (zeros 1)).
+  apply conv_sc_noncons_dc; assumption.
+Qed.
+
+(* 3D Navier-Stokes in rotational form, Leray-projected: every component has zero mean on divergence-free band-limited states
+   (the premise is necessary: on non-solenoidal input the mean of u x curl u is sum_m u(-m) (m . u(m)) <> 0 in general) *)
+Section Rot3.
+  Variable F : FieldT.
+  Add Field Ff3 : (fth F).
+  Local Open Scope fld_scope.
+Theorem projected_conv_dc (N Kc : Z) (ii s : F) (u0 u1 u2 : field F) :
+  (0 < N)%Z -> (0 <= Kc)%Z -> (2 * Kc < N)%Z ->
+  (forall m, in_band Kc m = true -> dc F ii s 0 m * u0 m + dc F ii s 1 m * u1 m + dc F ii s 2 m * u2 m = 0) ->
+  forall i, (i < 3)%nat -> nth i (projected_conv F (prod2 F 3 N Kc) ii s 3 [u0; u1; u2]) (fzero F) (zeros 3) = 0.
+Proof.
+  intros HN HK H2 Hdiv i Hi.
+  assert (Hz : forall c, dc F ii s c (zeros 3) = 0).
+  { intros c. unfold dc, zeros. destruct c as [|[|[|[|c]]]]; cbn [repeat nth fz]; ring. }
+  pose proof (fun c => dc_negi F ii s c) as Odd.
+  assert (Hl : forall v0 v1 v2 : field F, nth i (leray F ii s 3 [v0; v1; v2]) (fzero F) (zeros 3) = nth i [v0; v1; v2] (fzero F) (zeros 3)).
+  { intros v0 v1 v2. unfold leray, axes. cbv zeta. cbn [seq map2].
+    destruct i as [|[|[|i]]]; [| | | lia]; cbn [nth]; unfold fadd at 1, fmulp at 1; rewrite Hz; ring. }
+  unfold projected_conv, cross. rewrite Hl. unfold curl, cross.
+  destruct i as [|[|[|i]]]; [| | | lia]; cbn [nth].
+  - apply (rot_component_dc F 3 N Kc HN HK H2 (dc F ii s 0) (dc F ii s 1) (dc F ii s 2) u0 u1 u2); auto.
+  - apply (rot_component_dc F 3 N Kc HN HK H2 (dc F ii s 1) (dc F ii s 2) (dc F ii s 0) u1 u2 u0); auto.
+    intros m Hm. rewrite <- (Hdiv m Hm). ring.
+  - apply (rot_component_dc F 3 N Kc HN HK H2 (dc F ii s 2) (dc F ii s 0) (dc F ii s 1) u2 u0 u1); auto.
+    intros m Hm. rewrite <- (Hdiv m Hm). ring.
+Qed.
+End Rot3.
